@@ -17,7 +17,10 @@ Observe(job) ==
   LET sel == EffSelect(job.prog, job.select)
       sp == Spec(job.prog, sel)
   IN [id |-> job.id, required |-> sp.required, optional |-> sp.optional, entry |-> sp.entry,
-      active |-> sp.active, accepts |-> Accepts(job.prog, sel, Names(job.given))]
+      active |-> sp.active,
+      groups |-> {{job.prog.nodes[i].name : i \in grp} : grp \in CycleGroups(job.prog, ActiveFor(job.prog, sel))},
+      accepts |-> IF job.entrypoint = None THEN Accepts(job.prog, sel, Names(job.given))
+                  ELSE AcceptsAt(job.prog, sel, Names(job.given), job.entrypoint)]
 
 Init == tid \in 1..Len(Jobs) /\ res = "none"
 Next == res = "none" /\ res' = ToJson(Observe(Jobs[tid])) /\ UNCHANGED tid
@@ -35,13 +38,22 @@ Laws == res # "none" =>
       sp == Spec(pr, sel)
       act == ActiveFor(pr, sel)
       ep == UNION {Names(sp.entry[n]) : n \in DOMAIN sp.entry}
-      oneEntry == UNION {Names(EntryParams(pr, act, CHOOSE i \in grp : TRUE)) : grp \in CycleGroups(pr, act)}
+      MinEntry(grp) == CHOOSE i \in grp : \A j \in grp : Len(EntryParams(pr, act, i)) <= Len(EntryParams(pr, act, j))
+      oneEntry == UNION {Names(EntryParams(pr, act, MinEntry(grp))) : grp \in CycleGroups(pr, act)}
+      GivenFor(e) == sp.required \cup oneEntry \cup Names(EntryParams(pr, act, e))
+      OthersClear(e, given) == \A grp \in CycleGroups(pr, act) : e \notin grp =>
+           LET sat == {i \in grp : Satisfied(pr, act, i, given \cup PairKeys(pr.bound))}
+           IN \A i, j \in sat : EntryParams(pr, act, i) = EntryParams(pr, act, j)
       unbound == [pr EXCEPT !.bound = <<>>]
   IN /\ Law("disjoint", sp.required \cap sp.optional = {} /\ sp.required \cap ep = {} /\ sp.optional \cap ep = {})
      /\ Law("bind_moves", \A k \in 1..Len(pr.bound) : pr.bound[k][1] \notin sp.required)
      /\ Law("unbind_restores", \A k \in 1..Len(pr.bound) :
               LET p == pr.bound[k][1] us == Spec(unbound, sel) IN
                  (p \in us.required) => (p \in sp.optional))
-     /\ Law("sufficient", Accepts(pr, sel, sp.required \cup oneEntry))
-     /\ Law("necessary", \A p \in sp.required : ~Accepts(pr, sel, (sp.required \cup oneEntry) \ {p}))
+     /\ Law("sufficient", \A e \in EntryNodes(pr, act) :
+              OthersClear(e, GivenFor(e)) => AcceptsAt(pr, sel, GivenFor(e), pr.nodes[e].name))
+     /\ Law("sufficient_dag", CycleGroups(pr, act) = {} => Accepts(pr, sel, sp.required))
+     /\ Law("necessary", \A p \in sp.required : ~HasPair(pr.bound, p) =>
+              /\ ~Accepts(pr, sel, (sp.required \cup oneEntry) \ {p})
+              /\ \A e \in EntryNodes(pr, act) : ~AcceptsAt(pr, sel, GivenFor(e) \ {p}, pr.nodes[e].name))
 =======================================================================
